@@ -319,6 +319,9 @@ long long c_delineate_boundary(long long nrows, long long ncols,
         }
 
         /* Iterate if we have a neighbour */
+        if(knext < 0)
+            break;
+
         buffer[knext] = -1;
         idxcell = next;
     }
